@@ -46,3 +46,19 @@ Proof.
       * intros H x Hx. apply H. right. exact Hx.
     + split; [discriminate|]. intros H. specialize (H a (or_introl eq_refl)). congruence.
 Qed.
+
+(* ---- outcome of an operation: value or error class ---------------------------- *)
+Inductive err :=
+| EInsufficient | ENegative | EUnauthorized | EZeroAmount | ESameUser | EFeeAddr
+| EFeeCurrency | ELimits | ENoRate | EIssuerOp | EFeeTooBig | EBadLimits | ERateZero
+| ECurrencyIsToken | EExists | ENotFound | EBadArg | EOther.
+Global Instance err_eq_dec : EqDecision err.
+Proof. solve_decision. Defined.
+
+Inductive res (A : Type) := Ok (a : A) | Err (e : err).
+Arguments Ok {A} a.
+Arguments Err {A} e.
+Definition rbind {A B} (x : res A) (f : A -> res B) : res B :=
+  match x with Ok a => f a | Err e => Err e end.
+Notation "x <- e1 ;; e2" := (rbind e1 (fun x => e2)) (at level 100, e1 at next level, e2 at level 200, right associativity).
+Definition is_ok {A} (x : res A) : bool := match x with Ok _ => true | Err _ => false end.
